@@ -334,6 +334,40 @@ pub fn fault(r: &[u8], k: u64) -> Vec<u8> {
     v
 }
 
+/// The peer's advertised window (and urgent pointer) do not shape the answer: one complete
+/// request on a fresh validated flow with every window 0..nwin-1, 8 larger ones x urgent pointers.
+pub fn window_stage(rep: &mut Report, env: &AppEnv, stage: &str, req: &[u8], nwin: u64) {
+    let t0 = std::time::Instant::now();
+    let opts = RunOpts::new(stage).stateful().chunk(128).no_monitor();
+    let f4 = flow(false, PORT_PAIRS[0].0, PORT_PAIRS[0].1);
+    let c4 = env.cookies[&key_of(&f4)].wrapping_add(1);
+    engine::run(
+        &env.cfg,
+        nwin + 64,
+        &opts,
+        |i| {
+            let mut seg = TcpSeg::new(f4.cport, f4.sport, 1000, c4, F_PSH | F_ACK, req);
+            if i < nwin {
+                seg.window = i as u16;
+            } else {
+                seg.window = [1024u16, 1460, 4096, 8192, 16384, 32768, 65534, 65535][(i % 8) as usize];
+                seg.urg = [0u16, 1, 5, 100, 1000, 65535, 17, 2][((i - nwin) / 8) as usize];
+                if (i - nwin) / 8 >= 4 {
+                    seg.flags |= F_URG;
+                }
+            }
+            vec![Cmd::Frame(f4.tcp_seg(&seg))]
+        },
+        |it: &Item, sk: &mut Sink| {
+            let model = Model::new();
+            engine::judge_item(&env.cfg, &model, &env.cookies, it, it.cmds.len(), stage, sk);
+            sk.count("frames", 1);
+        },
+        &mut rep.sink,
+    );
+    rep.stage(stage, &format!("a complete request with every advertised window 0..{} and 8 larger ones x urgent pointer values / URG flag", nwin - 1), nwin + 64, t0);
+}
+
 pub fn run_c13(rep: &mut Report, thorough: bool) {
     rep.rule = "request grammar product (9 methods x 11 targets incl. non-UTF-8 and lengths 1..1300 (the longest still fits one segment) x 4 versions x header lists of length 0..2 over 4 headers x 3 line-end modes x with/without body) and, for a core subset, EVERY single-byte deletion, every substitution and insertion from an 11-symbol alphabet at every position, and every proper prefix; over UDP and a fresh validated TCP flow, 2 port pairs, both IP versions; each judged by the independent recogniser of the statement's grammar and the response validator (status line, WWW-Authenticate, Content-Length == body bytes); ADDED LATER: every 1-cut (and 2-cuts in the head; thorough: all 2-cuts) of core requests over TCP, keep-alive (second and third request on a connection), 300-request connections, depth-2 pair histories of whole / truncated / corrupted datagrams, thorough: all 65536 values of every adjacent byte pair of 3 requests".into();
     rep.assumptions = vec!["abstentions (lenient corners the statement does not settle): empty version numerals, a CR not followed by LF, request-target containing CR/LF, header line starting with ':'".into()];
@@ -378,6 +412,24 @@ pub fn run_c13(rep: &mut Report, thorough: bool) {
             r.extend_from_slice(b"\n\n");
             (if d[2] == 0 { Path { tcp: false, v6: true, ports: 1 } } else { Path { tcp: true, v6: false, ports: 0 } }, r)
         });
+        // every byte value at every position of three short requests (which bytes end a method, a
+        // target, a version, a header line is decided by the grammar, not by a character class)
+        {
+            let bases: [&[u8]; 3] = [b"GET /ab HTTP/1.1\r\nH: v\r\n\r\n", b"POST /p?q HTTP/1.0\nA:b\n\nxy", b"OPTIONS * HTTP/1.1\r\n\r\n"];
+            let mut plan: Vec<(usize, usize)> = Vec::new();
+            for (b, base) in bases.iter().enumerate() {
+                for p in 0..base.len() {
+                    plan.push((b, p));
+                }
+            }
+            sweep_app(rep, &env, &format!("http-all-byte-values-{}", tag), "3 short requests x every position x all 256 byte values x {UDP v4, TCP v6}", plan.len() as u64 * 256 * 2, |i| {
+                let d = unrank(i, &[plan.len() as u64, 256, 2]);
+                let (b, p) = plan[d[0] as usize];
+                let mut r = bases[b].to_vec();
+                r[p] = d[1] as u8;
+                (if d[2] == 0 { Path { tcp: false, v6: false, ports: 0 } } else { Path { tcp: true, v6: true, ports: 1 } }, r)
+            });
+        }
         // single faults
         let ncore: usize = if thorough { core.len() } else { 24 };
         let cstep = core.len() / ncore;
@@ -403,39 +455,7 @@ pub fn run_c13(rep: &mut Report, thorough: bool) {
         crate::props::pairs::pair_histories(rep, &env.cfg, &format!("http-pair-histories-{}", tag), &crate::props::pairs::datagram_variants("http", &[b"GET /a HTTP/1.1\r\nHost: x\r\n\r\n".to_vec(), b"POST / HTTP/1.0\n\n".to_vec(), b"HEAD /h HTTP/1.1\r\nA:b\r\nC: d\r\n\r\n".to_vec()]));
         long_conv_stage(rep, &env, &format!("http-long-connection-{}", tag), None, &core[..24.min(core.len())], if thorough { 1500 } else { 300 });
         // the peer's advertised window (and urgent pointer) do not shape the answer
-        {
-            let t0 = std::time::Instant::now();
-            let stage = format!("http-window-{}", tag);
-            let opts = RunOpts::new(&stage).stateful().chunk(128).no_monitor();
-            let f4 = flow(false, PORT_PAIRS[0].0, PORT_PAIRS[0].1);
-            let c4 = env.cookies[&key_of(&f4)].wrapping_add(1);
-            let stg = stage.clone();
-            engine::run(
-                &env.cfg,
-                1024 + 64,
-                &opts,
-                |i| {
-                    let mut seg = TcpSeg::new(f4.cport, f4.sport, 1000, c4, F_PSH | F_ACK, b"GET /w HTTP/1.1\r\nHost: x\r\n\r\n");
-                    if i < 1024 {
-                        seg.window = i as u16;
-                    } else {
-                        seg.window = [1024u16, 1460, 4096, 8192, 16384, 32768, 65534, 65535][(i % 8) as usize];
-                        seg.urg = [0u16, 1, 5, 100, 1000, 65535, 17, 2][((i - 1024) / 8) as usize];
-                        if (i - 1024) / 8 >= 4 {
-                            seg.flags |= F_URG;
-                        }
-                    }
-                    vec![Cmd::Frame(f4.tcp_seg(&seg))]
-                },
-                |it: &Item, sk: &mut Sink| {
-                    let model = Model::new();
-                    engine::judge_item(&env.cfg, &model, &env.cookies, it, it.cmds.len(), &stg, sk);
-                    sk.count("frames", 1);
-                },
-                &mut rep.sink,
-            );
-            rep.stage(&stage, "a complete request with every advertised window 0..1023 and 8 larger ones x urgent pointer values / URG flag", 1024 + 64, t0);
-        }
+        window_stage(rep, &env, &format!("http-window-{}", tag), b"GET /w HTTP/1.1\r\nHost: x\r\n\r\n", 1024);
         // keep-alive: a second and third complete request on a connection whose earlier requests
         // were answered
         {
@@ -955,6 +975,7 @@ pub fn run_c15(rep: &mut Report, thorough: bool) {
             cuts_stage(rep, &env, &format!("stun-cuts-{}", tag), &[big.clone()], 28);
             let msgs = vec![stun_magic(&[], &ID12), stun_magic(&stun_attr(3, &[0, 0, 0, 2]), &ID12), stun_classic(&[], &ID16), stun_magic(&stun_attr(0x8022, b"abcd"), &ID12)];
             long_conv_stage(rep, &env, &format!("stun-long-connection-{}", tag), Some(big.clone()), &msgs, if thorough { 1500 } else { 300 });
+            window_stage(rep, &env, &format!("stun-window-{}", tag), &big, 256);
         }
         if thorough {
             let bases: Vec<Vec<u8>> = vec![stun_magic(&[], &ID12), stun_classic(&stun_attr(3, &[0, 0, 0, 2]), &ID16), stun_magic(&[stun_attr(0x8022, b"abcd"), stun_attr(3, &[0, 0, 0, 2])].concat(), &ID12)];
@@ -1085,6 +1106,34 @@ pub fn run_c16(rep: &mut Report, thorough: bool) {
             let verf: Vec<u8> = (0..vl[d[2] as usize]).map(|k| 0xf0 | k as u8).collect();
             (p, mk(p, 0x61626364, 100000, v, pr, &cred, &verf))
         });
+        // authentication flavors: the statement answers every call for a program in range,
+        // whatever the credential / verifier flavor and whatever their (opaque) bodies hold
+        {
+            let flavors = [0u32, 1, 2, 3, 4, 5, 6, 390003, 0x7fff_ffff, 0xffff_ffff];
+            let bodies: Vec<Vec<u8>> = vec![
+                vec![],
+                vec![0, 0, 0, 1],
+                vec![0xff; 4],
+                vec![0, 0, 0, 1, 0, 0, 0, 4, b'h', b'o', b's', b't', 0, 0, 0, 0, 0, 0, 0, 0, 0, 0, 0, 0],
+                vec![0, 0, 0, 1, 0, 0, 0, 200, b'h', b'o', b's', b't'],
+                vec![0, 0, 0, 1, 0xff, 0xff, 0xff, 0xff, 0, 0, 0, 0],
+                (0..40u8).collect(),
+                vec![0x80; 400],
+            ];
+            let nf = flavors.len() as u64;
+            let nb = bodies.len() as u64;
+            sweep_app(rep, &env, &format!("rpc-auth-flavors-{}", tag), "10 credential flavors x 10 verifier flavors x 8 credential bodies (empty, one word, AUTH_SYS well-formed, AUTH_SYS with an over-long / huge machine-name length, 40 and 400 arbitrary bytes) x {same body, empty} as verifier x 2 calls x 4 paths", nf * nf * nb * 2 * 2 * 4, |i| {
+                let d = unrank(i, &[4, nf, nf, nb, 2, 2]);
+                let p = paths[d[0] as usize];
+                let cred = &bodies[d[3] as usize];
+                let verf: Vec<u8> = if d[4] == 0 { vec![] } else { cred[..cred.len().min(8)].to_vec() };
+                let (v, pr) = [(2u32, 3u32), (4, 4)][d[5] as usize];
+                let b = apprpc::build_call_flavors(0x61626364, 100000, v, pr, flavors[d[1] as usize], cred, flavors[d[2] as usize], &verf);
+                (p, if p.tcp { apprpc::with_record_mark(&b) } else { b })
+            });
+        }
+        window_stage(rep, &env, &format!("rpc-window-getport-{}", tag), &apprpc::with_record_mark(&apprpc::build_call(0x61626364, 2, 100000, 2, 3, &[], &[])), 256);
+        window_stage(rep, &env, &format!("rpc-window-dump-{}", tag), &apprpc::with_record_mark(&apprpc::build_call(0x61626364, 2, 100000, 4, 4, &[], &[])), 256);
         // destination ports and addresses (UDP, monitor)
         let t0 = std::time::Instant::now();
         let calls = [(2u32, 3u32), (3, 3), (4, 3), (2, 4), (3, 4), (4, 4)];
@@ -1334,6 +1383,8 @@ pub fn run_c17(rep: &mut Report, thorough: bool) {
             cuts_stage(rep, &env, &format!("smb-cuts-{}", tag), &pls, 12);
             long_conv_stage(rep, &env, &format!("smb1-long-connection-{}", tag), None, &[appsmb::smb1_negotiate(&Smb1Hdr::new(0x72), &["NT LM 0.12"]), appsmb::smb1_session_setup(&Smb1Hdr::new(0x73), &[7; 8])], if thorough { 1500 } else { 300 });
             long_conv_stage(rep, &env, &format!("smb2-long-connection-{}", tag), None, &[pls[1].clone(), pls[2].clone(), appsmb::smb2_negotiate(&Smb2Hdr::new(0), &[0x0311, 0x0311, 0x0202], &[6; 16])], if thorough { 1500 } else { 300 });
+            window_stage(rep, &env, &format!("smb1-window-{}", tag), &pls[0], 512);
+            window_stage(rep, &env, &format!("smb2-window-{}", tag), &pls[1], 512);
         }
         let dims = [2u64, 2, 65536];
         sweep_app(rep, &env, &format!("smb2-cmd-flags-{}", tag), "command 0..65535 x response flag x {UDP, TCP}", product(&dims), |i| {
@@ -1608,6 +1659,8 @@ pub fn run_c18(rep: &mut Report, thorough: bool) {
             cuts_stage(rep, &env, &format!("ssh-ghost-cuts-{}", tag), &pls, 12);
             long_conv_stage(rep, &env, &format!("ssh-long-connection-{}", tag), None, &[b"SSH-2.0-a\r\n".to_vec(), b"SSH-1.99-b c\r\n".to_vec()], if thorough { 1500 } else { 300 });
             long_conv_stage(rep, &env, &format!("ghost-long-connection-{}", tag), None, &[ghost_request()], if thorough { 300 } else { 60 });
+            window_stage(rep, &env, &format!("ssh-window-{}", tag), b"SSH-2.0-w\r\n", 256);
+            window_stage(rep, &env, &format!("ghost-window-{}", tag), &ghost_request(), 256);
         }
         let gt = 1 + 9 + 81 + 729;
         sweep_app(rep, &env, &format!("ghost-tails-{}", tag), "Gh0st magic + every tail of length <= 3 over 9 symbols, the captured request, tails of 1/2/4 KB, x {UDP v4, TCP v6, UDP v6, TCP v4}", (gt + 4) * 4, |i| {
